@@ -7,6 +7,7 @@ import (
 	"github.com/nsqio/nsq/internal/verif"
 	"os"
 	"path/filepath"
+	"runtime"
 	"strings"
 	"sync"
 	"time"
@@ -348,6 +349,62 @@ func c08Ephemeral(c *c08Case, dir string) {
 		}
 		if strings.HasSuffix(topic, "#ephemeral") {
 			break // the ephemeral topic went with its last channel: one round
+		}
+	}
+	// a consumer arriving at the very moment the last one leaves: whichever way that goes -- it joins the old channel, or
+	// gets a fresh one --, once it has left too the channel is gone
+	if !strings.HasSuffix(topic, "#ephemeral") && len(c.Fails) == 0 {
+		joinRounds := 250
+		for round := 0; round < joinRounds && len(c.Fails) == 0; round++ {
+			jch := fmt.Sprintf("j%d#ephemeral", round)
+			a, err := dial(nd.TCP, fmt.Sprintf("ja%d", round))
+			if err != nil {
+				c.Incon = err.Error()
+				return
+			}
+			a.identify(nil)
+			if err := a.sub(topic, jch); err != nil {
+				c.Incon = err.Error()
+				return
+			}
+			b, err := dial(nd.TCP, fmt.Sprintf("jb%d", round))
+			if err != nil {
+				c.Incon = err.Error()
+				return
+			}
+			b.identify(nil)
+			start := make(chan struct{})
+			var wg sync.WaitGroup
+			var subErr error
+			wg.Add(2)
+			go func() { defer wg.Done(); <-start; a.close() }()
+			go func() {
+				defer wg.Done()
+				<-start
+				for i := 0; i < round%7; i++ { // a varying head start for the leaver
+					runtime.Gosched()
+				}
+				subErr = b.sub(topic, jch)
+			}()
+			close(start)
+			wg.Wait()
+			c.Ops += 2
+			b.close()
+			if subErr != nil {
+				continue // refused while the channel was on its way out: nothing more is promised
+			}
+			gone := false
+			deadline := time.Now().Add(10 * time.Second)
+			for time.Now().Before(deadline) {
+				if cs, _ := chanStat(nd, topic, jch); cs == nil {
+					gone = true
+					break
+				}
+				time.Sleep(3 * time.Millisecond)
+			}
+			if !gone {
+				c.failf("ephemeral channel %s/%s still exists 10s after its last consumer left (that consumer had subscribed at the moment the previous one left)", topic, jch)
+			}
 		}
 	}
 	time.Sleep(100 * time.Millisecond)
